@@ -244,6 +244,10 @@ def _b_enumerate(I, a, k):
     start = a[1] if len(a) > 1 else k.get('start', 0)
     if isinstance(seq, (SSeq, SArr, SRecList)):
         return L.SymEnumerate(seq, start)
+    if isinstance(seq, Sym) and seq.kind == STR:
+        from . import strparts
+        if seq.parts is None or strparts.concrete_len(seq) is strparts.NOTFOUND:
+            return L.SymEnumerate(seq, start)         # characters of a symbolic string, by position
     items = I.iterate_concrete(seq)
     return [(start + i, x) for i, x in enumerate(items)]
 
@@ -750,7 +754,10 @@ def _rx_finditer(I, pattern, s):
             if mode.get('assume'):
                 from .symex import Frame
                 fr = I.cur_frame
-                sub = Frame(fr.func, I.env.spec_module, {'M': m}, cls=fr.cls, parent=I.spec_frame(fr))
+                top = getattr(I, '_top_frame', None)
+                extra = dict(top.locals) if top is not None else {}      # the contract's parameters are visible too
+                extra['M'] = m
+                sub = Frame(fr.func, I.env.spec_module, extra, cls=fr.cls, parent=I.spec_frame(fr))
                 I.p.assume(I.formula(I.parse_src(mode['assume']), sub))
             out.append(m)
         I.p.ghost.setdefault(('env_matches', key), []).extend(out)
@@ -827,6 +834,12 @@ class CharList:
 def get_attribute(I, o, name):
     from . import libdt
     L = _L()
+    if isinstance(o, EnumMember):
+        if name == 'value':
+            return o.value
+        if name == 'name':
+            return o.name
+        raise PyExc('AttributeError', f'{o!r}.{name}')
     r = libdt.get_attribute(I, o, name)
     if r is not L.NOTFOUND:
         return r
@@ -1070,6 +1083,10 @@ def str_method(I, s, name, args, kwargs):
         if isinstance(a, tuple):
             return L.wrap_bool(z3.Or(*[z3.SuffixOf(_S(I, x), t) for x in a]))
         return L.wrap_bool(z3.SuffixOf(_S(I, a), t))
+    if name in ('find', 'index') and len(args) == 1 and isinstance(args[0], Sym):
+        r = SP.find_stripped_self(s, args[0])
+        if r is not SP.NOTFOUND:
+            return r
     if name == 'find' or name == 'index':
         sub = _S(I, args[0])
         start = I.term(args[1]) if len(args) > 1 else z3.IntVal(0)
@@ -1120,6 +1137,10 @@ def str_method(I, s, name, args, kwargs):
             return r
     if name == 'strip' and not args:
         r = SP.strip(s)
+        if r is not SP.NOTFOUND:
+            return r
+    if name in ('lstrip', 'rstrip') and not args:
+        r = SP.strip_side(s, name[0])
         if r is not SP.NOTFOUND:
             return r
     if name == 'lstrip' and len(args) == 1 and isinstance(args[0], str):
